@@ -13,6 +13,12 @@
 //! over the node's input gives equal values row by row (float rule of refsql::cmp). A parse failure is a
 //! violation; run-time errors of the ORIGINAL expression are skipped.
 //!
+//! About 15 % of the cases replace the refsql query by a CAST / TRY_CAST probe query over `t0` (`CastQuery`:
+//! 1-3 `[TRY_]CAST(<operand> AS <type>)` select items and an optional `WHERE (cast) IS [NOT] NULL`; operands are
+//! literals that convert, literals that do not ('abc', '2024-02-30'), out-of-range numbers, NULL, booleans,
+//! columns and compound expressions) — same oracle: rows and types of the re-planned text, plus the
+//! expression-level side-by-side evaluation. A CAST that fails in the ORIGINAL is a discard.
+//!
 //! Non-trivial: generated SQL differs from the input SQL text and the plan has a join / subquery / aggregate /
 //! window / set operation.
 //!
@@ -54,6 +60,49 @@ pub struct C38;
 pub struct Case {
     pub sql: SqlCase,
     pub optimized: bool,
+    /// Some = a CAST / TRY_CAST probe query over `t0` replaces `sql.query` (the refsql grammar only casts
+    /// columns and total expressions): literals that convert, that do not convert, out-of-range numbers, NULL,
+    /// columns and compound operands, in projection and filter position
+    #[serde(default)]
+    pub casts: Option<CastQuery>,
+}
+
+#[derive(Clone, Debug, Serialize, Deserialize)]
+pub struct CastItem {
+    pub try_: bool,
+    pub operand: u8,
+    pub ty: u8,
+}
+
+#[derive(Clone, Debug, Serialize, Deserialize)]
+pub struct CastQuery {
+    pub items: Vec<CastItem>,
+    /// (cast, negated): WHERE (cast) IS [NOT] NULL
+    pub filter: Option<(CastItem, bool)>,
+}
+
+const CAST_OPERANDS: [&str; 20] = ["'12'", "'abc'", "' 7'", "'1.5'", "'true'", "'2024-02-30'", "'2024-02-28'", "300", "-1", "2147483648", "1.5", "NULL", "true", "r0.a", "r0.s", "r0.f", "r0.id", "(r0.a + 300)", "r0.p", "(r0.s || 'x')"];
+const CAST_TYPES: [&str; 8] = ["INT", "TINYINT", "SMALLINT", "BIGINT", "DOUBLE", "VARCHAR", "BOOLEAN", "DATE"];
+
+fn cast_item_sql(c: &CastItem) -> String {
+    let op = CAST_OPERANDS[pick_index((c.operand as u16) << 8, CAST_OPERANDS.len())];
+    let ty = CAST_TYPES[pick_index((c.ty as u16) << 8, CAST_TYPES.len())];
+    format!("{}({op} AS {ty})", if c.try_ { "TRY_CAST" } else { "CAST" })
+}
+
+fn cast_query_sql(q: &CastQuery) -> String {
+    let mut items: Vec<String> = q.items.iter().enumerate().map(|(i, c)| format!("{} AS k{i}", cast_item_sql(c))).collect();
+    items.push("r0.id AS kid".into());
+    let mut sql = format!("SELECT {} FROM t0 AS r0", items.join(", "));
+    if let Some((c, neg)) = &q.filter {
+        sql.push_str(&format!(" WHERE (({}) IS {}NULL)", cast_item_sql(c), if *neg { "NOT " } else { "" }));
+    }
+    sql
+}
+
+fn cast_query_strategy() -> BoxedStrategy<CastQuery> {
+    let item = || (prop::bool::weighted(0.7), any::<u8>(), any::<u8>()).prop_map(|(try_, operand, ty)| CastItem { try_, operand, ty });
+    (prop::collection::vec(item(), 1..4), prop::option::of((item(), any::<bool>()))).prop_map(|(items, filter)| CastQuery { items, filter }).boxed()
 }
 
 fn has_subquery_or_outer(e: &Expr) -> bool {
@@ -154,7 +203,10 @@ async fn check_exprs(ctx: &SessionContext, plan: &LogicalPlan, labels: &mut Vec<
 }
 
 async fn run_async(case: &Case, fx: &Fixture) -> CaseResult {
-    let sql = refsql::to_sql(&case.sql.query);
+    let sql = match &case.casts {
+        Some(q) => cast_query_sql(q),
+        None => refsql::to_sql(&case.sql.query),
+    };
     let a = match fx.session().await {
         Ok(s) => s,
         Err(e) => return setup_failure("session A", e),
@@ -229,7 +281,11 @@ async fn run_async(case: &Case, fx: &Fixture) -> CaseResult {
         return CaseResult::violation(format!("output types of the unparsed SQL differ: {m}{}", ctxt())).labels(labels);
     }
     // ORDER BY refers to output names: use the original's names for both (positions are what is compared)
-    if let Some(d) = compare_rows(&case.sql.query, &field_names(&original.schema), &original.rows, &rows1) {
+    let row_diff = match &case.casts {
+        Some(_) => refsql::multiset_diff(&original.rows, &rows1),
+        None => compare_rows(&case.sql.query, &field_names(&original.schema), &original.rows, &rows1),
+    };
+    if let Some(d) = row_diff {
         // recorded finding: join keys with NullEquality::NullEqualsNull (not visible in the plan text) are printed `a = b`
         let mut null_equal_join = false;
         let _ = plan.apply_with_subqueries(|n| {
@@ -271,7 +327,13 @@ async fn run_async(case: &Case, fx: &Fixture) -> CaseResult {
         labels.push("empty-result".into());
     }
     let differs = text != sql;
-    CaseResult::pass().nontrivial(differs && has_interesting_logical(&kinds)).labels(labels)
+    if case.casts.is_some() {
+        labels.push("cast-probe".into());
+        if sql.contains("TRY_CAST('") || sql.contains("TRY_CAST(3") || sql.contains("TRY_CAST(2") || sql.contains("TRY_CAST(NULL") {
+            labels.push("cast-probe:try_cast-over-literal".into());
+        }
+    }
+    CaseResult::pass().nontrivial(differs && (has_interesting_logical(&kinds) || case.casts.is_some())).labels(labels)
 }
 
 impl Property for C38 {
@@ -283,7 +345,7 @@ impl Property for C38 {
         "c38"
     }
     fn strategy(&self, tier: Tier) -> BoxedStrategy<Case> {
-        (refsql::case_strategy(&gen_config(tier)), any::<bool>()).prop_map(|(sql, optimized)| Case { sql, optimized }).boxed()
+        (refsql::case_strategy(&gen_config(tier)), any::<bool>(), prop::option::weighted(0.15, cast_query_strategy())).prop_map(|(sql, optimized, casts)| Case { sql, optimized, casts }).boxed()
     }
     fn budget(&self, tier: Tier) -> Budget {
         Budget::new(tier.pick(800, 60_000), tier.pick(8, 16)).min_nontrivial(tier.pick(100, 5_000)).discard_cap(0.6).case_timeout(120).shrink(400, 60)
@@ -310,7 +372,7 @@ impl Property for C38 {
 }
 
 fn run_inner(case: &Case) -> CaseResult {
-        if !refsql::deterministic_on(&case.sql.query, &case.sql.db()) {
+        if case.casts.is_none() && !refsql::deterministic_on(&case.sql.query, &case.sql.db()) {
             return CaseResult::discard("reference: query not deterministic on this data, or reference evaluation fails");
         }
         let fx = match Fixture::new(&case.sql.tables, Source::Mem, &Variant::default()) {
